@@ -90,7 +90,7 @@ pub fn leaf_for(builtin: &str, facets: Option<&Facets>, t: &mut Tape, violate: b
                 "anyURI" => ["http://example.org/a?b=c&d=e", "urn:isbn:0451450523", "relative/path#frag"][t.below(3)].to_string(),
                 "base64Binary" => ["SGVsbG8=", "AA==", "Zm9vYmFy"][t.below(3)].to_string(),
                 "hexBinary" => ["0FB7", "00", "DEADBEEF"][t.below(3)].to_string(),
-                "normalizedString" => ["plain text", "x", "héllo"][t.below(3)].to_string(),
+                "normalizedString" if f.is_empty() => ["plain text", "x", "héllo"][t.below(3)].to_string(),
                 _ => {
                     // xs:string, possibly restricted
                     if !f.enumeration.is_empty() {
@@ -212,7 +212,7 @@ pub fn numeric_text_for(builtin: &str, facets: &Facets, t: &mut Tape, violate: b
 pub fn violable(builtin: &str, f: &Facets) -> bool {
     let prim = expect::prim_for(builtin);
     match prim {
-        "String" => builtin == "string" && (!f.enumeration.is_empty() || f.length.is_some() || f.max_length.is_some()),
+        "String" => (builtin == "string" || builtin == "normalizedString") && (!f.enumeration.is_empty() || f.length.is_some() || f.max_length.is_some()),
         "bool" | "f32" | "f64" => false,
         _ => f.min_inclusive.is_some() || f.max_inclusive.is_some() || f.min_exclusive.is_some() || f.max_exclusive.is_some(),
     }
@@ -295,13 +295,25 @@ impl<'a> Gen<'a> {
                 }
             }
             "bool" | "f32" | "f64" => true,
-            _ => {
-                let lo = [f.min_inclusive.map(|v| v as i128), f.min_exclusive.map(|v| v as i128 + 1)].into_iter().flatten().max();
-                let hi = [f.max_inclusive.map(|v| v as i128), f.max_exclusive.map(|v| v as i128 - 1)].into_iter().flatten().min();
-                match (lo, hi) {
-                    (Some(l), Some(h)) => l <= h,
-                    _ => true,
-                }
+            int => {
+                // value space of the builtin itself
+                let (blo, bhi): (i128, i128) = match (b.as_str(), int) {
+                    ("negativeInteger", _) => (i32::MIN as i128, -1),
+                    ("nonPositiveInteger", _) => (i32::MIN as i128, 0),
+                    ("nonNegativeInteger", _) => (0, i32::MAX as i128),
+                    ("positiveInteger", _) => (1, i32::MAX as i128),
+                    (_, "i8") => (i8::MIN as i128, i8::MAX as i128),
+                    (_, "u8") => (0, u8::MAX as i128),
+                    (_, "i16") => (i16::MIN as i128, i16::MAX as i128),
+                    (_, "u16") => (0, u16::MAX as i128),
+                    (_, "i32") => (i32::MIN as i128, i32::MAX as i128),
+                    (_, "u32") => (0, u32::MAX as i128),
+                    (_, "i64") => (i64::MIN as i128, i64::MAX as i128),
+                    _ => (0, u64::MAX as i128),
+                };
+                let lo = [Some(blo), f.min_inclusive.map(|v| v as i128), f.min_exclusive.map(|v| v as i128 + 1)].into_iter().flatten().max().unwrap();
+                let hi = [Some(bhi), f.max_inclusive.map(|v| v as i128), f.max_exclusive.map(|v| v as i128 - 1)].into_iter().flatten().min().unwrap();
+                lo <= hi
             }
         }
     }
